@@ -675,6 +675,22 @@ func genAct(t *rapid.T) ACase {
 		}
 		c.Ops = append(c.Ops, op)
 	}
+	// one case in six begins with an id that moves house: activated on one member, deactivated,
+	// activated again on another member - and then the first member leaves (whatever a member
+	// remembers about where an id once lived must not cost the id its new home)
+	if rapid.IntRange(0, 5).Draw(t, "rehome") == 0 {
+		c.Start = []bool{true, true, rapid.Bool().Draw(t, "rn2"), rapid.Bool().Draw(t, "rn3")}
+		k, id := rapid.IntRange(0, 1).Draw(t, "rkind"), rapid.IntRange(0, 2).Draw(t, "rid")
+		a, b := rapid.IntRange(0, 1).Draw(t, "rfirst"), 0
+		b = 1 - a
+		script := []AOp{
+			{K: "activate", Kind: k, ID: id, Sel: a, Via: rapid.IntRange(0, 3).Draw(t, "rvia1")},
+			{K: "deactivate", Kind: k, ID: id, Sel: 1, Via: rapid.IntRange(0, 3).Draw(t, "rvia2")},
+			{K: "activate", Kind: k, ID: id, Sel: b, Via: rapid.IntRange(0, 3).Draw(t, "rvia3")},
+			{K: "leave", Node: rapid.IntRange(0, 2).Draw(t, "rleave")},
+		}
+		c.Ops = append(script, c.Ops...)
+	}
 	// one case in ten: a bulk population early in the history
 	if rapid.IntRange(0, 9).Draw(t, "bulkcase") == 0 {
 		at := rapid.IntRange(0, min(2, len(c.Ops))).Draw(t, "bulkat")
